@@ -57,13 +57,15 @@ struct Case {
 }
 
 fn gen_case(rng: &mut Rng) -> Case {
-    let nv = 1 + rng.usize_below(3);
+    let scenario = rng.below(12);
+    // one case in 25 has no decision variable at all (a constant inequality); not in the scenarios
+    // that need a variable
+    let nv = if scenario != 2 && rng.chance(1, 25) { 0 } else { 1 + rng.usize_below(3) };
     let mut inst = v1::Instance::default();
     let mut vars = vec![];
     let idpool: Vec<u64> = if rng.bool() { vec![0, 1, 2, 3, 4] } else { vec![2, 7, 11, 1 << 33, (1 << 40) + 5] };
     let mut ids = idpool.clone();
     rng.shuffle(&mut ids);
-    let scenario = rng.below(12);
     for (i, id) in ids.iter().take(nv).enumerate() {
         let (kind, l, u) = if rng.chance(1, 3) {
             (KIND_BINARY, 0, 1)
@@ -72,13 +74,13 @@ fn gen_case(rng: &mut Rng) -> Case {
             let u = rng.range(l, 4);
             (KIND_INTEGER, l, u)
         };
-        let kind = if scenario == 2 && i == 0 { KIND_CONTINUOUS } else { kind };
+        let kind = if scenario == 2 && i == 0 { *rng.pick(&[KIND_CONTINUOUS, KIND_CONTINUOUS, KIND_SEMI_CONTINUOUS]) } else { kind };
         let b = if kind == KIND_BINARY && rng.bool() { None } else { Some((l as f64, u as f64)) };
         inst.decision_variables.push(dvar(*id, kind, b));
         vars.push((*id, l, u));
     }
     // an unrelated variable with a larger id so that "fresh id" is not trivially max of used ones
-    if rng.bool() {
+    if nv > 0 && rng.bool() {
         inst.decision_variables.push(dvar(5000 + rng.below(10), KIND_CONTINUOUS, Some((0.0, 1.0))));
     }
     let family = rng.below(5);
@@ -93,7 +95,9 @@ fn gen_case(rng: &mut Rng) -> Case {
         lin.push((used[0], rational_coef(rng, family)));
     }
     let constant = if rng.chance(3, 4) { rational_const(rng, family) } else { 0.0 };
-    let f = if scenario == 2 {
+    let f = if nv == 0 {
+        f_const(constant)
+    } else if scenario == 2 {
         f_linear(linear(lin, constant))
     } else if rng.chance(1, 3) {
         let mut entries = vec![];
@@ -117,10 +121,10 @@ fn gen_case(rng: &mut Rng) -> Case {
     c.name = Some("c".into());
     inst.constraints.push(c);
     // another constraint that must stay untouched
-    inst.constraints.push(constraint(cid + 1, EQ_ZERO, Some(f_linear(linear(vec![(used[0], 1.0)], 0.0)))));
+    inst.constraints.push(constraint(cid + 1, EQ_ZERO, Some(if nv == 0 { f_const(0.0) } else { f_linear(linear(vec![(used[0], 1.0)], 0.0)) })));
     // further untouched constraints with ids on both sides of the target, stored in any order
     // (a message need not list constraints by ascending id; restore_constraint appends at the end)
-    if rng.chance(1, 2) {
+    if nv > 0 && rng.chance(1, 2) {
         let mut extra: Vec<u64> = vec![cid + 2, cid + 3, cid + 10, cid + 1000];
         if cid >= 5 {
             extra.extend([cid - 1, cid - 2, cid - 5]);
@@ -205,7 +209,7 @@ impl Property for C13 {
         }
     }
     fn rule(&self) -> &'static str {
-        "each case: an instance with 1-3 integer/binary variables with integer boxes inside [-4,4] (ids small or sparse), an inequality f(x)<=0 of degree <= 2 whose coefficients are integers or p/q from one denominator family (lcm <= 42), a second untouched constraint and in half the cases 1-4 more with ids on both sides of the target, the list stored ascending, descending or shuffled, one case in eight after a relax->restore history; even cases call convert_inequality_to_equality_with_integer_slack(id, max) (max huge, or 0..3 in one of six cases), odd cases add_integer_slack_to_inequality(id, ub in 1..6); one case in four is a rejection scenario (unknown constraint id, an equality constraint, a continuous variable used). Every lattice point of the box is enumerated: f(x)<=0 (SDK rule: < 1e-6) must hold iff some integer slack value in the introduced bound satisfies the new constraint (exact rational evaluation of the returned f64 coefficients; only the three slack values nearest to -a*f(x) can qualify since others are >= 1/42 away). Relaxed => every point satisfies it; InfeasibleDetected => no point does; rejections leave the instance equal. Non-trivial = a non-constant inequality; distinct = fingerprint of (instance, method, argument)."
+        "each case: an instance with 1-3 integer/binary variables (one in 25 without any variable and a constant inequality) with integer boxes inside [-4,4] (ids small or sparse), an inequality f(x)<=0 of degree <= 2 whose coefficients are integers or p/q from one denominator family (lcm <= 42), a second untouched constraint and in half the cases 1-4 more with ids on both sides of the target, the list stored ascending, descending or shuffled, one case in eight after a relax->restore history; even cases call convert_inequality_to_equality_with_integer_slack(id, max) (max huge, or 0..3 in one of six cases), odd cases add_integer_slack_to_inequality(id, ub in 1..6); one case in four is a rejection scenario (unknown constraint id, an equality constraint, a continuous or semi-continuous variable used). Every lattice point of the box is enumerated: f(x)<=0 (SDK rule: < 1e-6) must hold iff some integer slack value in the introduced bound satisfies the new constraint (exact rational evaluation of the returned f64 coefficients; only the three slack values nearest to -a*f(x) can qualify since others are >= 1/42 away). Relaxed => every point satisfies it; InfeasibleDetected => no point does; rejections leave the instance equal. Non-trivial = a non-constant inequality; distinct = fingerprint of (instance, method, argument)."
     }
     fn assumptions(&self) -> Vec<&'static str> {
         vec![
